@@ -27,7 +27,10 @@ RULE = ("int: for each target type u8..i64 x boundary, debug-assert-violating an
         "argument's flag) / value_parser!(T).range(lo..=hi) for u8..u64 parsers; values, defaults and env values drawn "
         "around each language boundary (literals in flipped case, near misses, U+212A, names of hidden values, wrong "
         "case with and without ignore_case, lo-1/lo/hi/hi+1, T::MIN-1, T::MAX+1, +-2^63, 2^64, -0, lone sign, "
-        "non-UTF-8); non-trivial = a successful parse storing a value under such a parser, or a value-error rejection.  "
+        "non-UTF-8); a third more cases are SIMPLE lines (one level, options with only a value parser, each given once "
+        "as --name=value) on which the oracle decides the outcome exactly from the property text (ok and stored as typed "
+        "iff every value is in its parser's language, a value error otherwise); "
+        "non-trivial = a successful parse storing a value under such a parser, or a value-error rejection.  "
         "Non-trivial: int = the candidate is a well-formed decimal (so range/width decided) or carries a decoration "
         "trap; bool = ASCII-lowercases to a literal or contains non-ASCII; possible = some declared name equals the "
         "value up to case; store = the history contains a failing access or a removal.  Distinct = distinct case text.")
@@ -916,9 +919,113 @@ def _wide_kind(vp):
     return vp if isinstance(vp, str) else (vp[0] if vp[0] != "int" else "int-" + vp[1])
 
 
+def gen_wide_simple(rng, n):
+    """SIMPLE lines: one level, 1..3 options `--oK` (action set, a wide or ranged-i64 value parser, ignore_case now and
+    then, nothing else), each given once as `--oK=value`: the outcome is decided exactly by the property text
+    (`_simple_expect`), independently of any model of the parser loop"""
+    out = []
+    while len(out) < n:
+        k = rng.randrange(1, 4)
+        args = []
+        for j in range(k):
+            name = ("o%d" % j).encode()
+            a = {"id": name, "long": name, "action": "set", "flags": set()}
+            a["vp"] = gen_cmd.gen_wide_vp(rng, None) if rng.random() < 0.9 else ("i64", -5, 300)
+            if isinstance(a["vp"], tuple) and a["vp"][0] == "pv" and rng.random() < 0.5:
+                a["flags"].add("icase")
+            args.append(a)
+        c = {"name": b"p", "args": args, "groups": [], "subs": [], "settings": [], "aliases": []}
+        for _ in range(4):
+            order = list(args)
+            rng.shuffle(order)
+            argv = [b"p"]
+            for a in order:
+                if rng.random() < 0.85:
+                    v = gen_cmd.wide_value(rng, a, rng.random() < 0.7) if gen_cmd.vp_is_wide(a["vp"]) else \
+                        gen_cmd.value_for(rng, a, rng.random() < 0.7)
+                    argv.append(b"--" + a["long"] + b"=" + v)
+            out.append(gen_cmd.case_sx(c, argv, mode="parse"))
+    return out[:n]
+
+
 def gen_stored_wide(tier, rng):
     n = 6000 if tier == "quick" else 60000
-    return parse_streams.gen_cases(rng, n, WIDE_PROFILE, per_cmd=6, p_mutate=0.2, safe_p=0.75, want=_has_wide_arg)
+    return (parse_streams.gen_cases(rng, n, WIDE_PROFILE, per_cmd=6, p_mutate=0.2, safe_p=0.75, want=_has_wide_arg)
+            + gen_wide_simple(rng, n // 3))
+
+
+_PLAIN_ARG_KEYS = {"id", "long", "action", "vp", "flags", "aliases", "saliases", "difs", "requires_if", "r_if", "r_if_all",
+                   "short"}
+
+
+def _simple_line(cmd, argv):
+    """[(arg, value)] in argv order if the case is a SIMPLE line (see gen_wide_simple), else None"""
+    if cmd["subs"] or cmd["groups"] or cmd["settings"] or cmd.get("ext") or cmd.get("ext_items"):
+        return None
+    by_long = {}
+    for a in cmd["args"]:
+        if set(k for k, v in a.items() if v not in (None, [], set(), ())) - _PLAIN_ARG_KEYS:
+            return None
+        if a.get("action") != "set" or not a.get("long") or a.get("short") or a["flags"] - {"icase"}:
+            return None
+        if a["aliases"] or a["saliases"] or a["difs"] or a["requires_if"] or a["r_if"] or a["r_if_all"]:
+            return None
+        if a["long"] in (b"help", b"version") or a["long"] in by_long:
+            return None
+        by_long[a["long"]] = a
+    out, seen = [], set()
+    for t in argv[1:]:
+        if not t.startswith(b"--") or b"=" not in t:
+            return None
+        name, _, v = t[2:].partition(b"=")
+        a = by_long.get(name)
+        if a is None or name in seen:
+            return None
+        seen.add(name)
+        out.append((a, v))
+    return out
+
+
+def simple_oracle(case, impl):
+    """two-sided, from the property text: on a SIMPLE line the parse succeeds and stores every value exactly as
+    typed iff each value lies in the language of its argument's parser; otherwise it fails with a value error"""
+    cmd, argv = parse_streams.decode_case(case)
+    line = _simple_line(cmd, argv)
+    if line is None or not argv:
+        return None
+    p = parse_result(impl)
+    if p["kind"] not in ("ok", "err"):
+        return None                      # panics / invalid definitions: C01's
+    verdicts = []
+    for a, v in line:
+        vp = _vp_of(a)
+        if isinstance(vp, tuple) and vp[0] == "pv" and is_utf8(v):
+            names = [x for n, al, _h in vp[1] for x in [n] + list(al)]
+            verdicts.append(expect_match(names, v, "icase" in a["flags"]))     # None = either (non-ASCII caseless)
+        else:
+            verdicts.append(_in_language(vp, v, "icase" in a["flags"]))
+    if any(x is None for x in verdicts):
+        return None
+    if all(verdicts):
+        if p["kind"] != "ok":
+            return ("every value of the line lies in the language of its argument's parser, but the parse failed with %s"
+                    % p.get("ekind"))
+        ents = {e["id"]: e for e in parse_streams.levels(p["m"])[0][0]}
+        for a, v in line:
+            e = ents.get(a["id"])
+            if e is None or e["occ"] != [[v]]:
+                return "argument %r: expected the stored value %r, reported %r" % (a["id"], v, e and e["occ"])
+        return None
+    a, v = [(a, v) for (a, v), ok in zip(line, verdicts) if not ok][0]
+    if p["kind"] == "ok":
+        return "the value %r is outside the language of the parser of %r (%r), but the parse succeeded" % (v, a["id"], _vp_of(a))
+    if p["ekind"].split("|")[0] not in VALUE_KINDS:
+        return "the value %r of %r is outside its parser's language: expected a value error, got %s" % (v, a["id"], p["ekind"])
+    return None
+
+
+def stored_wide_oracle(case, impl):
+    return stored_oracle(case, impl) or simple_oracle(case, impl)
 
 
 def make_wide_nontrivial(d):
@@ -928,11 +1035,14 @@ def make_wide_nontrivial(d):
         p = parse_result(impl)
         key = p["kind"] if p["kind"] != "err" else "err:" + p["ekind"]
         d["outcome " + key] = d.get("outcome " + key, 0) + 1
+        cmd, _argv = parse_streams.decode_case(case)
+        if _simple_line(cmd, _argv) is not None:
+            d["simple lines (outcome decided exactly by the oracle)"] = \
+                d.get("simple lines (outcome decided exactly by the oracle)", 0) + 1
         if p["kind"] == "err":
             return p["ekind"].split("|")[0] in VALUE_KINDS
         if p["kind"] != "ok":
             return False
-        cmd, _argv = parse_streams.decode_case(case)
         lv = parse_streams.levels(p["m"])
         defs = _level_defs(cmd, [n for (_e, n) in lv if n is not None])
         hit = False
@@ -989,7 +1099,7 @@ def streams(tier, rng):
                nontrivial=lambda c, r: "(err " in (r or "")),
         Stream("stored", gen_stored(tier, rng), oracle=stored_oracle, area="parse", project=stored_project,
                nontrivial=make_stored_nontrivial(d_stored), describe=d_stored),
-        Stream("stored_wide", gen_stored_wide(tier, rng), oracle=stored_oracle, area="parse", project=stored_wide_project,
+        Stream("stored_wide", gen_stored_wide(tier, rng), oracle=stored_wide_oracle, area="parse", project=stored_wide_project,
                nontrivial=make_wide_nontrivial(d_wide), describe=d_wide),
     ]
     if tier == "thorough":
